@@ -32,9 +32,10 @@ type PF struct {
 	// Instr gives the successor states of state q across one instruction; nil/absent means q is unchanged.
 	// It is consulted before a call's summary is applied.
 	Instr func(fn *ssa.Function, in ssa.Instruction, q int) (StateSet, bool)
-	// Edge refines state q along the edge b -> b.Succs[idx] (edge events: "err != nil", "len(batch) > 0").
-	// Returning 0 means the edge is infeasible from q (an assume).
-	Edge func(fn *ssa.Function, b *ssa.BasicBlock, idx int, q int) (StateSet, bool)
+	// Edge refines state q by one atomic branch fact known to hold along a CFG edge (edge events: "err != nil",
+	// "len(batch) > 0"). A branch on a short-circuit value (a boolean phi from `a && b` in a switch case or a
+	// returned expression) is expanded into its atomic facts first. Returning 0 means the edge is infeasible from q.
+	Edge func(fn *ssa.Function, g guard, q int) (StateSet, bool)
 	// InScope says which callees are summarised (others are opaque and leave the state unchanged).
 	InScope func(callee *ssa.Function) bool
 	// AfterCall lets a rule act on a call after its summary was applied (rarely needed).
@@ -200,16 +201,20 @@ func (p *PF) run(fn *ssa.Function, entry StateSet, visit func(fn *ssa.Function, 
 		}
 		for idx, succ := range b.Succs {
 			es := s
-			if p.Edge != nil {
-				var out StateSet
-				s.each(func(q int) {
-					if ns, ok := p.Edge(fn, b, idx, q); ok {
-						out |= ns
-					} else {
-						out |= ss(q)
+			if p.Edge != nil && len(b.Instrs) > 0 {
+				if iff, isIf := b.Instrs[len(b.Instrs)-1].(*ssa.If); isIf {
+					for _, g := range expandGuard(guard{cond: iff.Cond, val: idx == 0, blk: b}, 0) {
+						var out StateSet
+						es.each(func(q int) {
+							if ns, ok := p.Edge(fn, g, q); ok {
+								out |= ns
+							} else {
+								out |= ss(q)
+							}
+						})
+						es = out
 					}
-				})
-				es = out
+				}
 			}
 			if es|in[succ.Index] != in[succ.Index] || (!visited[succ.Index] && es != 0) {
 				in[succ.Index] |= es
